@@ -403,7 +403,8 @@ class AuthorizationResponse(oauth2.AuthorizationResponse, oauth2.AccessTokenResp
 
 class AuthorizationErrorResponse(oauth2.AuthorizationErrorResponse):
     c_allowed_values = oauth2.AuthorizationErrorResponse.c_allowed_values.copy()
-    c_allowed_values["error"].extend(
+    # a list of its own: the parent class keeps its own set of values
+    c_allowed_values["error"] = oauth2.AuthorizationErrorResponse.c_allowed_values["error"] + (
         [
             "interaction_required",
             "login_required",
